@@ -51,10 +51,23 @@ func init() {
 		"assume":        intrAssume,
 		"verifAssert":   intrAssert,
 		"verifReach":    intrReach,
+		"verifSupport":  intrReach,
 		"verifObserve":  intrObserve,
 		"verifKnown":    intrKnown,
 		"verifAllowExit": intrAllowExit,
 		"verifSymbolic": func(fr *frame, args []value) value { return true },
+		// verifRandMark / verifRandRewind: "re-seed with the same seed". Draws after the mark are
+		// logged; after the rewind the same outcomes are delivered again (see randVar).
+		"verifRandMark": func(fr *frame, args []value) value {
+			fr.i.noSpec("rand mark")
+			fr.i.randLog, fr.i.randLogging, fr.i.randReplay = nil, true, -1
+			return nil
+		},
+		"verifRandRewind": func(fr *frame, args []value) value {
+			fr.i.noSpec("rand rewind")
+			fr.i.randReplay = 0
+			return nil
+		},
 		"verifMapOrder": func(fr *frame, args []value) value {
 			fr.i.mapOrderExplore = args[0].(bool)
 			return nil
